@@ -38,6 +38,7 @@ struct ScriptSource {
     int err = -EIO;
     int end_code = -ENODATA;
     Script script;
+    std::vector<std::pair<size_t, int>> transient;   // (stream position, negative code): reported once when a call finds the stream at that position, nothing is transferred by that call
     Source src;
     bool chunk;
 
@@ -61,6 +62,7 @@ struct ScriptSource {
         calls++;
         if (n > maxask) maxask = n;
         if (err_at >= 0 && pos >= (size_t)err_at) return err;
+        for (size_t i = 0; i < transient.size(); i++) if (transient[i].first == pos) { int code = transient[i].second; transient.erase(transient.begin() + (long)i); return code; }
         int s = script.next();
         if (s <= 0) return s;
         if (pos >= data.size()) return end_code;
